@@ -73,6 +73,10 @@ func main() {
 			gp := drawSpec(r, fmt.Sprintf("p%03d", i), specBias{nullableLoops: 55, leftRec: 12, states: 45, preds: 60, actions: 80, throws: 30, optimized: 30, display: 10, unicode: 40})
 			fmt.Printf("=== %s %v\n%s\n", gp.Name, gp.Flags, gp.Text)
 		}
+	case "selftest":
+		code := runSelftest(os.Args[2:])
+		cleanupAll()
+		os.Exit(code)
 	case "C05":
 		code := runC05(tierArg())
 		cleanupAll()
